@@ -100,7 +100,12 @@ def py_floordiv(a, b):
     return z3.If(b > 0, a / b, (-a) / (-b))
 
 
+_DUNDER = {'Div': '__truediv__', 'Add': '__add__', 'Sub': '__sub__', 'Mult': '__mul__'}
+
+
 def binop(eng, op, a, b):
+    if isinstance(a, Obj) and _DUNDER.get(op) in a.attrs:
+        return eng.call(a.attrs[_DUNDER[op]], [b], {})
     if isinstance(a, PArr) or isinstance(b, PArr):
         # element-wise numpy arithmetic at the arbitrary index
         diag = a.diag if isinstance(a, PArr) else b.diag
@@ -929,6 +934,8 @@ def b_len(eng, x):
         return SV(TInt, c)
     if isinstance(x, IterV):
         return len(x.concrete) if x.concrete is not None else eng.numval(x.n)
+    if isinstance(x, Obj) and '__len__' in x.attrs:
+        return eng.call(x.attrs['__len__'], [], {})
     if isinstance(x, Box) and x.cd is not None:
         return len(x.cd)
     if isinstance(x, Box) and x.ty is None:
@@ -1987,9 +1994,18 @@ def install(eng):
             return PArr(f(x.e), x.diag)
         return wrap(TReal, f(_real(e.num(x))))
 
+    def np_abs(e, x):
+        if isinstance(x, PArr):
+            return PArr(z3.If(x.e >= 0, x.e, -x.e), x.diag)
+        v = e.num(x)
+        if isinstance(v, (int, float)):
+            return abs(v)
+        return e.numval(z3.If(v >= 0, v, -v))
+
     def np_fill_diagonal(e, arr, v):
         arr.e = z3.If(arr.diag, _real(e.num(v)), arr.e)
     EXTERNAL_MODULES['numpy'] = ModuleV('numpy', dict(sign=Builtin(np_sign, 'numpy.sign'), exp=Builtin(np_exp, 'numpy.exp'),
+                                                      abs=Builtin(np_abs, 'numpy.abs'), absolute=Builtin(np_abs, 'numpy.absolute'),
                                                       fill_diagonal=Builtin(np_fill_diagonal, 'numpy.fill_diagonal')))
     def namedtuple(e, name, fields):
         names = fields.split() if isinstance(fields, str) else list(e.concrete_list(fields))
@@ -2013,5 +2029,7 @@ def install(eng):
     abc = ModuleV('collections.abc', dict(Sequence=PyType('Sequence'), Hashable=PyType('Hashable')))
     EXTERNAL_MODULES['collections.abc'] = abc
     EXTERNAL_MODULES['collections'].attrs['abc'] = abc
+    # collections.deque(): an empty double-ended queue, modelled as a list (append / popleft / iteration)
+    EXTERNAL_MODULES['collections'].attrs['deque'] = Builtin(lambda e: Box(None, kind='list'), 'collections.deque')
     EXTERNAL_MODULES['numbers'] = ModuleV('numbers', dict(Integral=PyType('Integral'), Number=PyType('Number'),
                                                           Real=PyType('Number')))
